@@ -1,5 +1,6 @@
 import Pdq.Lemmas.Jet
 import Pdq.Lemmas.Expr
+import Pdq.Lemmas.Doubling
 
 /-!
 # C10 — Taylor-coefficient initialisation returns the exact solution derivatives
@@ -18,8 +19,11 @@ of the ODE, every dimension, every number of requested coefficients.
   recursive-JVP routine of the current code returns the Taylor coefficients of the ODE with the time
   *frozen* — exact iff the program does not mention `t` (defect D4); `jvp_aug_exact`: the repaired
   routine (time as an extra argument with tangent 1) is exact for every vector field;
-* `doubling_wrong_nonautonomous`, `doublingAug_witness`, … : the same defect for the Newton-doubling
-  routine (executable model; exactness for autonomous fields is checked by the correspondence only).
+* `doubling_spec`, `doubling_exact_of_autonomous`, `doubling_wrong_nonautonomous`: the same defect for the
+  Newton-doubling routine; `doublingAug_exact`: the repaired routine (time series `(t, 1, 0, …)` in
+  `jet_embedded`) is exact for every first-order polynomial vector field (`Lemmas/Doubling.lean`: second-order
+  Taylor expansion of a polynomial program modulo `X^(2·deg)` + loop invariant of the inner scan);
+* the residual route (`jetexpand_residual`): `C11.residual_route_determines`.
 -/
 set_option linter.unusedSectionVars false
 open PowerSeries
@@ -380,6 +384,166 @@ theorem jvp_variant_exact_of_autonomous (fs : List (Expr K)) (inits : List (List
 
 
 
+/-! ## Newton doubling -/
+
+/-- number of coefficients after `n` doublings: `1, 3, 7, 15, …` (`= 2^(n+1) − 1`) -/
+def dlen : ℕ → ℕ
+  | 0 => 1
+  | n + 1 => 2 * dlen n + 1
+
+theorem dlen_pos (n : ℕ) : 1 ≤ dlen n := by cases n <;> simp [dlen]
+
+theorem dlen_eq (n : ℕ) : dlen n = 2 ^ (n + 1) - 1 := by
+  induction n with
+  | zero => rfl
+  | succ n ih =>
+      have : 1 ≤ 2 ^ (n + 1) := Nat.one_le_two_pow
+      rw [dlen, ih, pow_succ 2 (n + 1)]; omega
+
+/-- iterating `double` from the first coefficient of a formal solution -/
+theorem iter_double_spec (fs : List (Expr K)) (U : ℕ → K⟦X⟧) (Tps : K⟦X⟧) (hode : SolvesODE fs U Tps)
+    (hw : ∀ f ∈ fs, f.width ≤ fs.length) (n : ℕ) :
+    iter (fun tc => double fs tc (truncT (2 * tc.length) Tps)) n (tcOf fs U 1) = tcOf fs U (dlen n) := by
+  induction n with
+  | zero => rfl
+  | succ n ih =>
+      rw [iter_succ', ih]
+      unfold double
+      rw [tcOf_length]
+      exact doubleN_spec hode hw (dlen n) (dlen_pos n)
+
+/-- the coefficient list of `taylorCoeffs` for a first-order problem, entry by entry -/
+theorem tc_eq_tabulate (fs : List (Expr K)) (u0 : List K) (t : K) (N : ℕ) (hu : u0.length = fs.length) :
+    taylorCoeffs fs [u0] t N = tabulate (1 + N) fun j => tabulate fs.length fun i => tcSeq fs [u0] t j i := by
+  refine list_ext_getD [] (by simp [tc_length]) fun k hk => ?_
+  have hk' : k < 1 + N := by rw [tc_length] at hk; simpa [Nat.add_comm] using hk
+  rw [tabulate_getD_lt _ hk']
+  have hlen : ((taylorCoeffs fs [u0] t N).getD k []).length = fs.length := by
+    rcases Nat.eq_zero_or_pos k with rfl | hpos
+    · rw [tc_inits fs [u0] t N 0 (by simp)]; simpa using hu
+    · obtain ⟨j, rfl⟩ : ∃ j, k = ([u0] : List (List K)).length + j := ⟨k - 1, by simp; omega⟩
+      rw [tc_getD_stable fs [u0] t (show j + 1 ≤ N by simp at hk'; omega) (by simp), tc_succ,
+        ← tc_length fs [u0] t j, getD_append_length]
+      simp
+  refine list_ext_getD 0 (by rw [hlen]; simp) fun i hi => ?_
+  rw [hlen] at hi
+  rw [tabulate_getD_lt _ hi, tcSeq_eq fs [u0] t (N := N) (by simpa [Nat.add_comm] using hk') i]
+  rfl
+
+
+/-- the solution curve of the first-order problem `u' = f'(u, t + X)`, `u(0) = u0`, and a program `fs`
+with `f(·, Tps) = f'(·, t + X)`: it solves the ODE in the normalised-coefficient form used by `double` -/
+theorem solvesODE_of_tcSeq (fs fs' : List (Expr K)) (u0 : List K) (t : K) (Tps : K⟦X⟧)
+    (hlen : fs'.length = fs.length) (hord' : ∀ f ∈ fs', f.order ≤ 1)
+    (hrel : ∀ (U : ℕ → ℕ → K⟦X⟧) (i : ℕ), eval (C (R := K)) U Tps (fs.getD i (const 0))
+      = eval (C (R := K)) U (clock t) (fs'.getD i (const 0))) :
+    SolvesODE fs (fun i => curve (tcSeq fs' [u0] t) 0 i) Tps := by
+  intro a ha j
+  have hsol := taylorCoeffs_solves fs' [u0] t (by simpa using hord') a
+  have hd : d⁄dX K (curve (tcSeq fs' [u0] t) 0 a) = curve (tcSeq fs' [u0] t) 1 a := curve_deriv _ 0 a
+  have h1 : coeff j (d⁄dX K (curve (tcSeq fs' [u0] t) 0 a))
+      = coeff (j + 1) (curve (tcSeq fs' [u0] t) 0 a) * ((j : K) + 1) := coeff_derivative _ j
+  rw [hd] at h1
+  simp only [List.length_singleton] at hsol
+  rw [hsol] at h1
+  rw [hrel, Nat.cast_succ, mul_comm, ← h1]
+  congr 1
+  have hmem : fs'.getD a (const 0) ∈ fs' := by
+    simp [List.getD_eq_getElem?_getD, show a < fs'.length by omega]
+  refine eval_congr_order _ _ _ _ _ fun k i hk => ?_
+  have := hord' _ hmem
+  have : k = 0 := by omega
+  subst this; rfl
+
+theorem factorialScale_tcOf (fs fs' : List (Expr K)) (u0 : List K) (t : K) (m : ℕ) (hlen : fs'.length = fs.length) :
+    factorialScale (tcOf fs (fun i => curve (tcSeq fs' [u0] t) 0 i) m)
+      = tabulate m fun j => tabulate fs'.length fun i => tcSeq fs' [u0] t j i := by
+  unfold factorialScale
+  rw [tcOf_length]
+  refine tabulate_congr fun j hj => ?_
+  unfold tcOf
+  rw [tabulate_getD_lt _ hj]
+  unfold avec tabulate
+  rw [List.map_map, hlen]
+  refine List.map_congr_left fun i _ => ?_
+  simp only [Function.comp, curve, coeff_mk, Nat.zero_add, factK_eq]
+  have : (j.factorial : K) ≠ 0 := by exact_mod_cast Nat.factorial_ne_zero j
+  field_simp
+
+/-- generic form: the doubling recursion with the time series `truncT Tps` computes the Taylor
+coefficients of `u' = f'(u, t + X)` whenever `f(·, Tps) = f'(·, t + X)` -/
+theorem doubling_generic (fs fs' : List (Expr K)) (u0 : List K) (t : K) (Tps : K⟦X⟧) (n : ℕ)
+    (hlen : fs'.length = fs.length) (hu : u0.length = fs.length)
+    (hord' : ∀ f ∈ fs', f.order ≤ 1) (hw : ∀ f ∈ fs, f.width ≤ fs.length)
+    (hrel : ∀ (U : ℕ → ℕ → K⟦X⟧) (i : ℕ), eval (C (R := K)) U Tps (fs.getD i (const 0))
+      = eval (C (R := K)) U (clock t) (fs'.getD i (const 0))) :
+    factorialScale (iter (fun tc => double fs tc (truncT (2 * tc.length) Tps)) n [u0])
+      = taylorCoeffs fs' [u0] t (dlen n - 1) := by
+  have hode := solvesODE_of_tcSeq fs fs' u0 t Tps hlen hord' hrel
+  have h0 : [u0] = tcOf fs (fun i => curve (tcSeq fs' [u0] t) 0 i) 1 := by
+    unfold tcOf tabulate
+    simp only [List.range_one, List.map_cons, List.map_nil, List.cons.injEq, and_true]
+    unfold avec
+    refine list_ext_getD 0 (by simp [hu]) fun i hi => ?_
+    rw [tabulate_getD_lt _ (by omega)]
+    simp only [curve, coeff_mk, Nat.zero_add, Nat.factorial_zero, Nat.cast_one, div_one]
+    rw [tcSeq_inits fs' [u0] t (by simp)]
+    rfl
+  have hiter := iter_double_spec fs _ Tps hode hw n
+  rw [← h0] at hiter
+  rw [hiter, factorialScale_tcOf fs fs' u0 t _ hlen, tc_eq_tabulate fs' u0 t _ (by omega)]
+  have := dlen_pos n
+  congr 1; omega
+
+/-- **the time-aware Newton-doubling routine (`fixes/C10-doubling-time.diff`) is exact** for every
+first-order polynomial vector field, time-dependent or not -/
+theorem doublingAug_exact (fs : List (Expr K)) (u0 : List K) (t : K) (n : ℕ)
+    (hu : u0.length = fs.length) (hwf : ∀ f ∈ fs, f.order ≤ 1 ∧ f.width ≤ fs.length) :
+    doublingAug fs u0 t n = taylorCoeffs fs [u0] t (dlen n - 1) := by
+  unfold doublingAug
+  have hT : (fun tc : List (List K) => double fs tc
+        (TSer.ofFn _ fun j => if j = 0 then t else if j = 1 then 1 else 0))
+      = fun tc => double fs tc (truncT (2 * tc.length) (clock t)) := by
+    funext tc
+    congr 1
+    exact TSer.ofFn_congr fun j _ => (clock_coeff t j).symm
+  rw [hT]
+  exact doubling_generic fs fs u0 t (clock t) n rfl hu (fun f hf => (hwf f hf).1) (fun f hf => (hwf f hf).2)
+    (fun _ _ => rfl)
+
+/-- **what `jetexpand_ode_doubling_unroll` of the current code computes** (defect D4): the Taylor
+coefficients of the ODE with the time frozen at `t` -/
+theorem doubling_spec (fs : List (Expr K)) (u0 : List K) (t : K) (n : ℕ)
+    (hu : u0.length = fs.length) (hwf : ∀ f ∈ fs, f.order ≤ 1 ∧ f.width ≤ fs.length) :
+    doubling fs u0 t n = taylorCoeffs (fs.map (freeze t)) [u0] t (dlen n - 1) := by
+  unfold doubling
+  have hT : (fun tc : List (List K) => double fs tc (TSer.const _ t))
+      = fun tc => double fs tc (truncT (2 * tc.length) (C t)) := by
+    funext tc
+    congr 1
+    exact (truncT_C _ t).symm
+  rw [hT]
+  refine doubling_generic fs (fs.map (freeze t)) u0 t (C t) n (by simp) hu ?_ (fun f hf => (hwf f hf).2) ?_
+  · intro f hf
+    obtain ⟨g, hg, rfl⟩ := List.mem_map.mp hf
+    rw [order_freeze]; exact (hwf g hg).1
+  · intro U i
+    have : (fs.map (freeze t)).getD i (const 0) = freeze t (fs.getD i (const 0)) := by
+      simp only [List.getD_eq_getElem?_getD, List.getElem?_map]
+      rcases fs[i]? with _ | f <;> rfl
+    rw [this, eval_freeze]
+
+/-- the doubling routine of the current code is exact on autonomous vector fields -/
+theorem doubling_exact_of_autonomous (fs : List (Expr K)) (u0 : List K) (t : K) (n : ℕ)
+    (hu : u0.length = fs.length) (hwf : ∀ f ∈ fs, f.order ≤ 1 ∧ f.width ≤ fs.length)
+    (haut : ∀ f ∈ fs, f.timeFree = true) :
+    doubling fs u0 t n = taylorCoeffs fs [u0] t (dlen n - 1) := by
+  rw [doubling_spec fs u0 t n hu hwf]
+  congr 1
+  conv_rhs => rw [← List.map_id fs]
+  exact List.map_congr_left fun f hf => freeze_of_timeFree t f (haut f hf)
+
+
 /-! ## defect D4: concrete witnesses, and non-vacuity of the theorems above -/
 
 /-- the witness of D4: `f(u, t) = t·u + t²` -/
@@ -398,23 +562,19 @@ theorem jvp_variant_wrong_nonautonomous :
 
 /-- **D4, Newton-doubling routine (current code)** on the same problem, two doublings -/
 theorem doubling_wrong_nonautonomous :
-    doubling [witnessD4] 1 [1] (1/2) 2 = [[1], [3/4], [3/8], [3/16], [3/32], [3/64], [3/128]] ∧
+    doubling [witnessD4] [1] (1/2) 2 = [[1], [3/4], [3/8], [3/16], [3/32], [3/64], [3/128]] ∧
     taylorCoeffs [witnessD4] [[1]] (1/2) 6
       = [[1], [3/4], [19/8], [75/16], [303/32], [1503/64], [7563/128]] ∧
-    doubling [witnessD4] 1 [1] (1/2) 2 ≠ taylorCoeffs [witnessD4] [[1]] (1/2) 6 := by
+    doubling [witnessD4] [1] (1/2) 2 ≠ taylorCoeffs [witnessD4] [[1]] (1/2) 6 := by
   decide +kernel
 
-/-- the time-aware doubling routine (`fixes/C10-doubling-time.diff`) is right on the witness.
-
-Full statement (not proved here; checked by the correspondence on every generated problem):
-`∀ fs u0 t n, (∀ f ∈ fs, f.order ≤ 1 ∧ f.width ≤ fs.length) →
-   doublingAug fs fs.length u0 t n = taylorCoeffs fs [u0] t (2^(n+1) - 2)`, and
-`doubling = doublingAug` whenever `∀ f ∈ fs, f.timeFree`.  Missing: the second-order Taylor expansion
-of a polynomial program modulo `X^(2·deg)` (Newton step) and the loop invariant of the inner scan. -/
-theorem doublingAug_witness_partial :
-    doublingAug [witnessD4] 1 [1] (1/2) 2 = taylorCoeffs [witnessD4] [[1]] (1/2) 6 ∧
-    doubling [logistic] 1 [1/3] (1/2) 2 = taylorCoeffs [logistic] [[1/3]] (1/2) 6 ∧
-    doublingAug [logistic] 1 [1/3] (1/2) 2 = taylorCoeffs [logistic] [[1/3]] (1/2) 6 := by
+/-- the time-aware doubling routine (`fixes/C10-doubling-time.diff`) on the witness, and both variants on
+an autonomous field (instances of `doublingAug_exact` / `doubling_exact_of_autonomous`, here by kernel
+evaluation of the executable model) -/
+theorem doubling_witnesses :
+    doublingAug [witnessD4] [1] (1/2) 2 = taylorCoeffs [witnessD4] [[1]] (1/2) 6 ∧
+    doubling [logistic] [1/3] (1/2) 2 = taylorCoeffs [logistic] [[1/3]] (1/2) 6 ∧
+    doublingAug [logistic] [1/3] (1/2) 2 = taylorCoeffs [logistic] [[1/3]] (1/2) 6 := by
   decide +kernel
 
 /-! ### non-vacuity -/
@@ -450,5 +610,14 @@ example : jet [witnessD4] (argsAuto [[1], [3/4], [19/8]] 1).1 (argsAuto [[1], [3
   decide +kernel
 
 
+
+theorem witness_wf : ∀ f ∈ [witnessD4], f.order ≤ 1 ∧ f.width ≤ [witnessD4].length := by decide
+theorem logistic_wf : ∀ f ∈ [logistic], f.order ≤ 1 ∧ f.width ≤ [logistic].length := by decide
+
+example : doublingAug [witnessD4] [1] (1/2) 2 = taylorCoeffs [witnessD4] [[1]] (1/2) 6 :=
+  doublingAug_exact [witnessD4] [1] (1/2) 2 rfl witness_wf
+
+example : doubling [logistic] [1/3] (1/2) 3 = taylorCoeffs [logistic] [[1/3]] (1/2) 14 :=
+  doubling_exact_of_autonomous [logistic] [1/3] (1/2) 3 rfl logistic_wf (by decide)
 
 end Pdq.C10
